@@ -38,7 +38,7 @@ def make_supply(kind, horizon, rng, mode="random"):
     return sigma[:horizon]
 
 
-def simulate_executor(callbacks, releases, sigma, chains=None):
+def simulate_executor(callbacks, releases, sigma, chains=None, trace=None):
     """callbacks: list of dicts {kind: 'T'|'P', prio: int (smaller = higher), cost: int};
     releases: list (per callback) of sorted external release times; chains: dict cb -> next cb
     (a completed instance of cb releases an instance of next at its completion time).
@@ -78,6 +78,8 @@ def simulate_executor(callbacks, releases, sigma, chains=None):
                 rel = queue[i].pop(0)
                 running = [i, callbacks[i]["cost"], rel]
         if running is not None:
+            if trace is not None:
+                trace.append((t, running[0], running[2]))
             running[1] -= 1
             if running[1] == 0:
                 i, _, rel = running
@@ -108,3 +110,57 @@ def simulate_fifo_supply(jobs, sigma):
                     resp[k] = t + 1 - jobs[k][0]
         t += 1
     return resp
+
+
+def check_timer_legal(callbacks, releases, sigma, trace, i):
+    """executable rendering of `SupplyTimerLegal` (lean/RTA/RTA/Lemmas/TimerSound.lean) for the
+    analysed timer `i`: checks a trace [(slot, callback, release of the served instance)] of the
+    executor model against the five clauses; returns the list of violated clauses (empty = legal).
+    Instances are identified by (callback, release, k-th instance with that release)."""
+    hp = {k for k, c in enumerate(callbacks) if c["kind"] == "T" and c["prio"] < callbacks[i]["prio"] and k != i}
+    horizon = len(sigma)
+    # instances in release order per callback; the executor serves them FIFO per callback
+    inst = []          # (cb, rel)
+    for k, rl in enumerate(releases):
+        for r in sorted(rl):
+            if r < horizon:
+                inst.append((k, r))
+    # map trace entries to instance indices: per callback, served in FIFO order
+    order = {k: [x for x, (kk, _) in enumerate(inst) if kk == k] for k in range(len(callbacks))}
+    ptr = {k: 0 for k in range(len(callbacks))}
+    svc = [0] * len(inst)
+    cost = [callbacks[k]["cost"] for k, _ in inst]
+    cur = {}           # callback -> instance currently started
+    served = {}
+    for (t, k, rel) in trace:
+        if k not in cur or svc[cur[k]] >= cost[cur[k]]:
+            if ptr[k] >= len(order[k]):
+                return ["trace serves an instance that was never released"]
+            cur[k] = order[k][ptr[k]]
+            ptr[k] += 1
+        served[t] = cur[k]
+        svc[cur[k]] += 1
+    bad = set()
+    svc = [0] * len(inst)
+    rel_inst = [x for x, (k, _) in enumerate(inst) if k == i or k in hp]
+    for t in range(horizon):
+        pending = [x for x in range(len(inst)) if inst[x][1] <= t and svc[x] < cost[x]]
+        j = served.get(t)
+        if j is not None:
+            if not (inst[j][1] <= t and svc[j] < cost[j] and sigma[t]):
+                bad.add("valid")
+            if any(x != j and 0 < svc[x] < cost[x] for x in range(len(inst))):
+                bad.add("nonpre")
+            if svc[j] == 0:
+                kj = inst[j][0]
+                if kj != i and kj not in hp and any(x in pending for x in rel_inst):
+                    bad.add("prioOther")
+                if kj == i:
+                    if any(inst[x][0] in hp for x in pending):
+                        bad.add("prioOwn.hp")
+                    if any(inst[x][0] == i and inst[x][1] < inst[j][1] for x in pending):
+                        bad.add("prioOwn.fifo")
+            svc[j] += 1
+        elif sigma[t] and any(x in pending for x in rel_inst):
+            bad.add("wc")
+    return sorted(bad)
